@@ -222,7 +222,7 @@ def check(case: dict) -> dict:
     return {'nontrivial': nontrivial, 'classes': classes}
 
 
-ENGINES = [Engine('schedules', cases, check, quick=300, thorough=4000, batch=100)]
+ENGINES = [Engine('schedules', cases, check, quick=300, thorough=12000, batch=100, thorough_s=1200.0)]
 
 
 # ---------------------------------------------------------------------------- dynamic peers: a neighbor defined as an address range
@@ -355,4 +355,4 @@ def range_fixed() -> list:
     ]
 
 
-ENGINES.append(Engine('dynamic-peers', range_cases, check_range, quick=60, thorough=1500, batch=60, fixed_cases=range_fixed))
+ENGINES.append(Engine('dynamic-peers', range_cases, check_range, quick=60, thorough=4000, batch=100, fixed_cases=range_fixed, thorough_s=900.0))
